@@ -481,7 +481,7 @@ func callSSA(i *interpreter, caller *frame, callpos token.Pos, fn *ssa.Function,
 			return nil
 		}
 		if fn.Blocks == nil {
-			panic("no code for function: " + name)
+			panic(engineBug("no model and no code for function " + name + " (not supported by the engine)"))
 		}
 	}
 	if cur != nil {
